@@ -49,6 +49,46 @@ func (ri *rtspInput) connOr(p *lalclient.Publisher) *memconn.Conn {
 	return p.Conn
 }
 
+// incVariants lists the parameter-set variants the incarnation uses (more than
+// one after a sequence header change).
+func incVariants(in Inc) []int {
+	var out []int
+	for _, it := range in.Items {
+		if it.Kind == "vsh" {
+			dup := false
+			for _, v := range out {
+				dup = dup || v == it.Variant
+			}
+			if !dup {
+				out = append(out, it.Variant)
+			}
+		}
+	}
+	if len(out) == 0 {
+		out = []int{incVariant(in)}
+	}
+	return out
+}
+
+// ownPPS / ownSets: does the parameter set belong to the incarnation?
+func ownPPS(in Inc, b []byte) bool {
+	for _, v := range incVariants(in) {
+		if _, _, pps := gen.ParamSets(in.Codecs.Video, v); bytes.Equal(b, pps) {
+			return true
+		}
+	}
+	return false
+}
+
+func ownSPS(in Inc, b []byte) bool {
+	for _, v := range incVariants(in) {
+		if _, sps, _ := gen.ParamSets(in.Codecs.Video, v); bytes.Equal(b, sps) {
+			return true
+		}
+	}
+	return false
+}
+
 func incVariant(in Inc) int {
 	for _, it := range in.Items {
 		if it.Kind == "vsh" || it.Kind == "meta" {
@@ -162,10 +202,24 @@ type rtspCons struct {
 
 func (w *world) joinRtsp() *rtspCons {
 	rc := &rtspCons{conn: w.s.RtspConn(), done: make(chan struct{})}
+	cl := rtspref.NewClient(rc.conn)
+	// OPTIONS and DESCRIBE are written at once and lal has processed both when this function returns (it answers the
+	// DESCRIBE at once, or has registered the subscriber as waiting for the session description): from here on the
+	// subscriber is known to the group.  Everything else happens in the consumer's own goroutine.
+	_, e1 := cl.WriteRequest("OPTIONS", rtspURI, nil, nil)
+	_, e2 := cl.WriteRequest("DESCRIBE", rtspURI, map[string]string{"Accept": "application/sdp"}, nil)
+	if e1 != nil || e2 != nil {
+		lalclient.Harness("rtsp consumer: write: %v %v", e1, e2)
+	}
+	if !rc.conn.WaitPeerIdle(lalclient.IdleTimeout) {
+		lalclient.Harness("rtsp consumer: lal did not process OPTIONS / DESCRIBE")
+	}
 	go func() {
 		defer close(rc.done)
-		cl := rtspref.NewClient(rc.conn)
-		r, err := cl.Describe(rtspURI) // answered once the stream has a session description
+		r, err := cl.ReadResponse() // OPTIONS
+		if err == nil {
+			r, err = cl.ReadResponse() // DESCRIBE: answered once the stream has a session description
+		}
 		rc.mu.Lock()
 		rc.ansEnds = int(atomic.LoadInt32(&w.endsSeen))
 		if r != nil {
@@ -208,6 +262,10 @@ func (rc *rtspCons) nframes() (int, bool) {
 // closes the connection and judges what arrived.
 func (w *world) leaveRtsp(a *attached) *pbt.Violation {
 	rc := a.rs
+	if v := w.rtspHeldBack(a); v != nil {
+		_ = rc.conn.Close()
+		return v
+	}
 	prev, quiet := -1, 0
 	for quiet < 2 {
 		n, playing := rc.nframes()
@@ -324,7 +382,7 @@ func (w *world) checkRtspConsumer(a *attached) *pbt.Violation {
 					if cd.Video == "" || vcodec != cd.Video {
 						return pbt.V("inherited/rtsp-sdp", "%s: the session description announces %s video, the incarnation publishes %q%s:\n%s", who, tr.Encoding, cd.Video, prevNote, sdp)
 					}
-					if len(tr.PPS) > 0 && !bytes.Equal(tr.PPS[len(tr.PPS)-1], pps) || len(tr.SPS) > 0 && !bytes.Equal(tr.SPS[len(tr.SPS)-1], sps) || (vcodec == "hevc" && len(tr.VPS) > 0 && !bytes.Equal(tr.VPS[len(tr.VPS)-1], vps)) {
+					if len(tr.PPS) > 0 && !ownPPS(in, tr.PPS[len(tr.PPS)-1]) || len(tr.SPS) > 0 && !ownSPS(in, tr.SPS[len(tr.SPS)-1]) || (vcodec == "hevc" && len(tr.VPS) > 0 && !bytes.Equal(tr.VPS[len(tr.VPS)-1], vps)) {
 						return pbt.V("inherited/rtsp-sdp", "%s: the session description carries sps=%x pps=%x, the incarnation's parameter sets are sps=%x pps=%x%s", who, tr.SPS, tr.PPS, sps, pps, prevNote)
 					}
 				case "audio":
@@ -464,7 +522,7 @@ func (w *world) checkRtspConsumer(a *attached) *pbt.Violation {
 				}
 				if ch == vch {
 					if ps, isPps := isParamSet(codec, u.Data); ps {
-						if isPps && !bytes.Equal(u.Data, pps) {
+						if isPps && !ownPPS(in, u.Data) {
 							return pbt.V("inherited/rtsp-parameter-sets", "%s: channel %d: in-band PPS %x is not the incarnation's %x%s", who, ch, u.Data, pps, prevNote)
 						}
 						continue
@@ -478,6 +536,68 @@ func (w *world) checkRtspConsumer(a *attached) *pbt.Violation {
 					hd = hd[:16]
 				}
 				return pbt.V("rtsp/unknown-unit", "%s: channel %d (%s): unit %d (%d bytes, % x.., rtp ts %d) is nothing the publisher sent%s", who, ch, codec, ui, len(u.Data), hd, u.TS, prevNote)
+			}
+		}
+	}
+	return nil
+}
+
+// rtspHeldBack (audit-2 entry 5): a subscriber that ought to have been served
+// and received nothing.
+//
+//	A. Its DESCRIBE was registered (synchronously, see joinRtsp) in or before
+//	   incarnation k, k ended in a way that keeps subscribers, and k produced a
+//	   session description for certain (RTSP input: always; RTMP-message
+//	   kinds: 17 audio / video messages — lal's rtmp->rtsp remuxer decides after
+//	   16 at the latest): the DESCRIBE must have been answered.
+//	B. The harness saw its PLAY completed and incarnation m then published 17
+//	   more audio / video messages including a key frame (stream with video):
+//	   RTP must have arrived.
+//
+// Not applied with the dummy-audio filter (it holds messages back), nor when
+// lal disposed the subscriber together with the input.
+func (w *world) rtspHeldBack(a *attached) *pbt.Violation {
+	if w.c.DummyAudio {
+		return nil
+	}
+	rc := a.rs
+	wait := func(pred func() bool) bool {
+		deadline := time.Now().Add(lalclient.DeliverTimeout)
+		for !pred() {
+			select {
+			case <-rc.done:
+				return pred()
+			case <-time.After(2 * time.Millisecond):
+			}
+			if time.Now().After(deadline) {
+				return false
+			}
+		}
+		return true
+	}
+	// A
+	if k := w.incAt(a.j); k >= 0 && w.endKeeps(k) {
+		in := w.c.Incs[k]
+		n, _ := w.mediaAfter(k, 0)
+		due := (in.Input == "rtsp" && n > 0) || (in.Input != "rtsp" && in.Input != "gb" && n >= 17) || (in.Input == "gb" && n >= 24)
+		if due {
+			pbt.Count("heldback_rule_rtsp_describe_due", 1)
+			answered := func() bool { rc.mu.Lock(); defer rc.mu.Unlock(); return rc.sdp != nil || rc.joinErr != nil || rc.status != 0 }
+			if !wait(answered) {
+				return pbt.V("held-back/rtsp", "RTSP consumer %d: its DESCRIBE was registered before published index %d; incarnation %d (%s input, %s) then published %d audio / video messages and ended by %s, yet the DESCRIBE was never answered (no session description for the successor?)", a.idx, a.j, k, in.Input, shape(in.Codecs), n, in.End)
+			}
+		}
+	}
+	// B
+	if a.playIdx >= 0 && a.playIdx < len(w.P) {
+		m := w.P[a.playIdx].inc
+		n, key := w.mediaAfter(m, a.playIdx)
+		in := w.c.Incs[m]
+		if w.endKeeps(m) && n >= 17 && (key || in.Codecs.Video == "") && !(in.Input == "gb" && n < 24) {
+			pbt.Count("heldback_rule_rtsp_rtp_due", 1)
+			got := func() bool { n, _ := rc.nframes(); return n > 0 }
+			if !wait(got) {
+				return pbt.V("held-back/rtsp", "RTSP consumer %d: PLAY had completed before published index %d; incarnation %d (%s input, %s) then published %d audio / video messages (key frame among them: %v) and ended by %s, yet not a single RTP packet arrived", a.idx, a.playIdx, m, in.Input, shape(in.Codecs), n, key, in.End)
 			}
 		}
 	}
